@@ -83,6 +83,8 @@ pub struct Stats {
     pub exploratory: BTreeMap<String, u64>,
     pub samples: Vec<Value>,
     pub notes: Vec<String>,
+    /// set by a tier that enumerated its whole (finite) space in this run
+    pub exhaustive: bool,
 }
 
 impl Stats {
@@ -110,6 +112,7 @@ impl Stats {
             }
         }
         self.notes.extend(other.notes);
+        self.exhaustive = self.exhaustive || other.exhaustive;
     }
     pub fn count(&mut self, tier: &str) {
         self.evaluations += 1;
@@ -159,7 +162,7 @@ impl Evidence {
                 "distinct_nontrivial": stats.nontrivial.len(),
                 "rule": self.rule,
                 "samples": samples,
-                "exhaustive": self.exhaustive,
+                "exhaustive": self.exhaustive || stats.exhaustive,
                 "per_tier": stats.tiers,
                 "skipped_outside_quantifier": stats.skips,
                 "labels": stats.labels,
